@@ -22,6 +22,7 @@ func RunC15(c *Ctx, r *Report) {
 		r.undecided(prefix+"anchor", "CalcEapAkaPrimeAtMAC / Marshal / initMAC / SetAttr", "-", "anchor does not resolve")
 		return
 	}
+	c.macTotality(r, prefix)
 	r.Func(c.FuncName(fn))
 	r.Func(c.FuncName(initMAC))
 	f := c.NewFA(fn)
